@@ -5,5 +5,5 @@ CONSTANTS
   MaxDepth = 5
 INIT Init
 NEXT Next
-INVARIANTS WorldsOk SharedIsHandle PrefixRule Confinement GuardSound ModelConforms Positive RedirectIndex
+INVARIANTS WorldsOk SharedIsHandle PrefixRule ConfinedAndConforms GuardSound Positive RedirectIndex
 CHECK_DEADLOCK FALSE
